@@ -23,11 +23,11 @@ TECHNIQUE = ('stateful runtime monitor over the save/load pair (model of the las
              'post-conditions on all four loaders, nested calls included) with a decimal-rounding reference oracle; '
              'workload = one-shot round trips, same-path and interleaved save/load histories, sweep of 4-decimal dt')
 RULE = ('case = one block of save_/load_ calls of the real functions on 1-3 temporary paths. one-shot: a record '
-        '(1..2000 samples; classes noise/walk/quake/..., |v| 4e-7..1e20, half-way points of the 6th decimal incl. exact '
+        '(1..2000 samples; classes noise/walk/quake/..., |v| 4e-7..1e20 (some to 1e300), half-way points of the 6th decimal incl. exact '
         'dyadic ties, integers, float32, list/tuple) saved with save_signal (Signal/AccSignal) or save_values_and_dt to a '
         'fresh path and read by every loader entry point (load_values_and_dt, load_signal default/sig/signal/acc_sig, '
         'load_sig m, load_asig load_label x m). history: 3..6 rounds of save(different record, dt, label, saver) -> loads '
-        'on the SAME path; interleaved: the same on 2-3 paths. dt: design list, k/10000 over six decades, dt>=1 with 5-6 '
+        'on the SAME path (incl. same-size overwrites and re-saving the loaded object); interleaved: the same on 2-3 paths. dt: design list, k/10000 over six decades, dt>=1 with 5-6 '
         'significant digits, log-uniform raw in [1e-4,100], half-way points of the 4th decimal, int/float32/float64. '
         'labels: default, spaces, digits, header look-alikes, empty, comma, #, random printable ASCII. m in '
         '{1,2,0.5,-1,9.81,random}. sweep: save/load of every dt=k/10000 in the enumerated range. distinct = digest of '
@@ -43,27 +43,29 @@ EXHAUSTIVE = {'quick': 'every time step dt = k/10000, k = 1..20000 (all 4-decima
                        '(loader and saver cycle with k); above that every 61st k up to 1000000',
               'thorough': 'every time step dt = k/10000, k = 1..1000000 (all 4-decimal dt in [1e-4, 100]), one save + one '
                           'load each (loader and saver cycle with k)'}
-MIN_EVALS = {'quick': {'npts': 60000, 'dt==round4(saved)': 60000, 'values==m*round6(saved)': 60000,
-                       'dt.within-half-4th-decimal': 60000, 'values.within-half-6th-decimal': 60000,
-                       'label==saved(load_label=True)': 4000, 'call-returns': 60000,
-                       'type.load_values_and_dt->(ndarray,float)': 30000, 'type.load_signal(default|sig)->Signal': 6000,
-                       'type.load_signal(signal)->Signal': 3000, 'type.load_signal(acc_sig)->AccSignal': 3000,
-                       'type.load_sig->Signal': 6000, 'type.load_asig->AccSignal': 6000,
-                       'history.same-path-reload': 5000},
-             'thorough': {'npts': 1200000, 'dt==round4(saved)': 1200000, 'values==m*round6(saved)': 1200000,
-                          'dt.within-half-4th-decimal': 1200000, 'values.within-half-6th-decimal': 1200000,
-                          'label==saved(load_label=True)': 60000, 'call-returns': 1200000,
-                          'type.load_values_and_dt->(ndarray,float)': 600000,
-                          'type.load_signal(default|sig)->Signal': 150000, 'type.load_signal(signal)->Signal': 60000,
-                          'type.load_signal(acc_sig)->AccSignal': 60000, 'type.load_sig->Signal': 150000,
-                          'type.load_asig->AccSignal': 150000, 'history.same-path-reload': 60000}}
+MIN_EVALS = {'quick': {'npts': 120000, 'dt==round4(saved)': 120000, 'values==m*round6(saved)': 120000,
+                       'dt.within-half-4th-decimal': 120000, 'values.within-half-6th-decimal': 120000,
+                       'label==saved(load_label=True)': 10000, 'call-returns': 100000,
+                       'type.load_values_and_dt->(ndarray,float)': 65000, 'type.load_signal(default|sig)->Signal': 11000,
+                       'type.load_signal(signal)->Signal': 10000, 'type.load_signal(acc_sig)->AccSignal': 10000,
+                       'type.load_sig->Signal': 11000, 'type.load_asig->AccSignal': 14000,
+                       'history.same-path-reload': 20000},
+             'thorough': {'npts': 2200000, 'dt==round4(saved)': 2200000, 'values==m*round6(saved)': 2200000,
+                          'dt.within-half-4th-decimal': 2200000, 'values.within-half-6th-decimal': 2200000,
+                          'label==saved(load_label=True)': 200000, 'call-returns': 2000000,
+                          'type.load_values_and_dt->(ndarray,float)': 1200000,
+                          'type.load_signal(default|sig)->Signal': 200000, 'type.load_signal(signal)->Signal': 180000,
+                          'type.load_signal(acc_sig)->AccSignal': 180000, 'type.load_sig->Signal': 200000,
+                          'type.load_asig->AccSignal': 250000, 'history.same-path-reload': 300000}}
 
 CTX = None
 REG = {}        # realpath -> {'saved': op dict of the last successful save (None = unknown), 'pid': int, 'n_saves': int}
 PIDS = {}       # realpath -> small integer id used in witnesses
 LOG = []        # outermost calls of the current case, in order (the witness of every violation)
 LOG_CAP = 64
-LOG_STATE = {'truncated': False}
+LOG_STATE = {'truncated': False, 'cases_done': 0}
+PRELUDE = []    # the calls of the first block this process executed: replayed before the witness block, so that a fault
+                # living in process-wide state set by the first calls (a cache, a remembered dt) reproduces too
 
 
 def n_shards(tier):
@@ -150,7 +152,7 @@ def _witness(key, **extra):
     except OSError:
         raw = None
     w = {'ops': [dict(o) for o in LOG], 'log_truncated': LOG_STATE['truncated'], 'pid': PIDS.get(key),
-         'file_bytes': raw, 'file_text_head': (raw or b'')[:400].decode('utf-8', 'replace')}
+         'prelude_ops': [dict(o) for o in PRELUDE] if LOG_STATE['cases_done'] else [], 'file_bytes': raw, 'file_text_head': (raw or b'')[:400].decode('utf-8', 'replace')}
     w.update(extra)
     return w
 
@@ -163,11 +165,16 @@ def end_case(remove=True):
                 os.remove(key)
             except OSError:
                 pass
+    if LOG and not LOG_STATE['cases_done']:
+        PRELUDE[:] = [dict(o) for o in LOG]
+    if LOG:
+        LOG_STATE['cases_done'] += 1
     REG.clear()
     PIDS.clear()
     _KEYS.clear()
     del LOG[:]
     LOG_STATE['truncated'] = False
+    _LAST.clear()
 
 
 # ------------------------------------------------------------------------------------------- save monitors
@@ -449,6 +456,9 @@ def install(ctx):
 
 
 # ------------------------------------------------------------------------------------------- executing one call
+_LAST = {}      # driver side: the last Signal object a loader returned in the current block
+
+
 def execute(eqsig, ctx, op, path):
     """Run one op (driver- or witness-format) through the PUBLIC eqsig names. Exceptions on these in-domain calls are
     violations of the statement (a saved signal must load)."""
@@ -461,6 +471,13 @@ def execute(eqsig, ctx, op, path):
             else:
                 eqsig.save_values_and_dt(path, vals, dt, op['label'])
             r = None
+        elif k == 'save_signal' and op.get('from_last_load'):
+            sig = _LAST.get('sig')         # the object a loader returned earlier in this block is saved again
+            if sig is None:
+                ctx.observe('resave-skipped(no-loaded-signal)')
+                return None
+            eqsig.save_signal(path, sig)
+            r = None
         elif k == 'save_signal':
             cls = getattr(eqsig, op['sigtype'])
             vals, dt = _rebuild_values(op), _rebuild_dt(op)
@@ -472,8 +489,12 @@ def execute(eqsig, ctx, op, path):
             r = None
         elif k in ('load_values_and_dt', 'load_signal', 'load_sig', 'load_asig'):
             r = getattr(eqsig, k)(path, *op.get('args', []), **op.get('kwargs', {}))
+            if isinstance(r, eqsig.Signal):
+                _LAST['sig'] = r
         else:
             raise ValueError('unknown op %r' % (k,))
+    except O.OracleError:     # the reference disagrees with itself: crash the shard (inconclusive), never a verdict
+        raise
     except Exception as e:   # noqa
         ctx.exception('call-returns', _witness(_key(path), failed_op=k), e)
         return None
@@ -542,7 +563,10 @@ def gen_values(rng, n, cls=None):
         x = i / 128.0 + rng.integers(0, 1000, size=n) * (rng.random(size=n) < 0.5)
         return sign * x, cls
     if cls == 'huge':
-        return sign * 10.0 ** rng.uniform(6, 20, size=n), cls
+        e = rng.uniform(6, 20, size=n)
+        if rng.random() < 0.15:      # far beyond the design range: "every magnitude"
+            e = rng.uniform(20, 300, size=n)
+        return sign * 10.0 ** e, cls
     if cls == 'manydigit':
         return rng.uniform(-1, 1, size=n) * 10.0 ** rng.uniform(0, 10, size=n), cls
     if cls == 'mixed':
@@ -615,7 +639,29 @@ def gen_save(rng, n=None, maxlen=2000):
             vals = vals.astype(float)
         op = {'op': 'save_values_and_dt', 'values': vals, 'container': cont, 'dt': dtv, 'dt_type': dtt, 'label': label,
               'kw': bool(rng.random() < 0.2)}
-    return op, {'values': vcls, 'dt': dcls, 'label': lcls, 'n': n}
+    info = {'values': vcls, 'dt': dcls, 'label': lcls, 'n': n}
+    op['_info'] = info
+    return op, info
+
+
+def gen_twin(rng, a):
+    """A second save op that produces a file of exactly the same size as that of `a` (same length, label, printed widths)
+    with different numbers - what a cache keyed on path+size/length, or a partial overwrite, would not notice."""
+    n = len(a['values'])
+    a['values'] = rng.uniform(1.0, 9.999, size=n)
+    a['_info'] = dict(a['_info'], values='fixedwidth')
+    b = dict(a)
+    b['values'] = rng.uniform(1.0, 9.999, size=n)
+    d = float(a['dt'])
+    if d < 9.9999:
+        kk = int(rng.integers(1, 99999))
+    elif d < 99.9999:
+        kk = int(rng.integers(100000, 999999))
+    else:
+        kk = 1000000
+    b['dt'], b['dt_type'] = kk / 10000.0, 'float'
+    b['_info'] = dict(a['_info'], dt='twin-same-width')
+    return b
 
 
 def all_loads(rng):
@@ -663,7 +709,9 @@ def _digest(ops):
     for op in ops:
         parts.append(op['op'])
         parts.append(op.get('pid_local', 0))
-        if 'values' in op:
+        if op.get('from_last_load'):
+            parts.append('resave-loaded')
+        elif 'values' in op:
             parts += [op['values'], repr(op['dt']), op['dt_type'], op['label'], op.get('sigtype'), op.get('container')]
         else:
             parts += [repr(op.get('args')), repr(sorted((op.get('kwargs') or {}).items()))]
@@ -684,8 +732,11 @@ def _run_case(eqsig, ctx, tmpd, ops, cls, info, counter):
     ctx.case(_digest(ops), nontrivial=_nontrivial(saves), cls=cls,
              sample={'class': cls, 'calls': [o['op'] for o in ops][:12], 'first_save_classes': info,
                      'label': saves[0]['label'], 'dt': saves[0]['dt'], 'head': np.asarray(saves[0]['values'])[:5]})
-    for sub in ('values:' + str(info.get('values')), 'dt:' + str(info.get('dt')), 'label:' + str(info.get('label'))):
-        ctx.classes[sub] = ctx.classes.get(sub, 0) + 1
+    for sv in saves:
+        inf = sv.get('_info') or {}
+        for sub in ('values:' + str(inf.get('values')), 'dt:' + str(inf.get('dt')), 'label:' + str(inf.get('label')),
+                    'saver:' + sv['op'] + ('(%s)' % sv['sigtype'] if 'sigtype' in sv else '(%s)' % sv.get('container'))):
+            ctx.classes[sub] = ctx.classes.get(sub, 0) + 1
     end_case()
     for p in paths.values():     # files of failed saves are not in the model
         if os.path.exists(p):
@@ -719,6 +770,12 @@ def case_history(rng, npaths=1):
         if info0 is None:
             info0 = info
         ops.append(sv)
+        if rng.random() < 0.25:       # same-size overwrite: save A, read, save twin B, (read below)
+            tw = gen_twin(rng, sv)
+            for ld in some_loads(rng, int(rng.integers(1, 3))):
+                ld['pid_local'] = pl
+                ops.append(ld)
+            ops.append(tw)
         if rng.random() < 0.12:       # overwritten again before anything is read
             sv2, _ = gen_save(rng, maxlen=300)
             sv2['pid_local'] = pl
@@ -735,6 +792,11 @@ def case_history(rng, npaths=1):
         for ld in some_loads(rng, int(rng.integers(1, 5))):
             ld['pid_local'] = pl
             ops.append(ld)
+        if rng.random() < 0.15:       # the loaded object itself is saved again (same path) and read back
+            ops.append({'op': 'save_signal', 'from_last_load': True, 'pid_local': pl})
+            for ld in some_loads(rng, int(rng.integers(1, 4))):
+                ld['pid_local'] = pl
+                ops.append(ld)
     return ops, info0
 
 
@@ -777,7 +839,7 @@ def run_sweep(eqsig, ctx, tmpd):
 
 
 N_CASES = {'quick': {'oneshot': 6000, 'history': 2400, 'interleaved': 800},
-           'thorough': {'oneshot': 120000, 'history': 50000, 'interleaved': 15000}}
+           'thorough': {'oneshot': 90000, 'history': 36000, 'interleaved': 12000}}
 
 
 def run_shard(ctx):
@@ -816,6 +878,12 @@ def replay(w):
     end_case()
     tmpd = tempfile.mkdtemp(prefix='vf_c16_replay_')
     try:
+        if w.get('prelude_ops'):
+            for op in w['prelude_ops']:
+                execute(eqsig, ctx, op, os.path.join(tmpd, 'pre%s.txt' % op.get('pid', 0)))
+            end_case()
+            ctx = core.Ctx(PROP_ID, 'quick', 0, 0, 1)      # only the witness block is judged by the replay
+            install(ctx)
         for op in w['ops']:
             path = os.path.join(tmpd, 'p%s.txt' % op.get('pid', 0))
             execute(eqsig, ctx, op, path)
